@@ -260,6 +260,19 @@ func recC01(c *ctx) {
 			}
 		}
 	}
+	// ---- (3b) the COMPLETE family of non-canonical encodings of small-order points (y + p for y < 19, sign bit set on x = 0,
+	// both together), each as R and as A, under every option vector: a rule keyed on the bytes must know all of them
+	for tt := 0; tt < 8; tt++ {
+		for _, nc := range vt.NonCanonical(vt.Enc(vt.Point(big.NewInt(0), tt))) {
+			ncSide := side{enc: nc, dec: true, canon: false, zero: true, t: tt, dlog: big.NewInt(0), known: true}
+			a, rr := rnd(), rnd()
+			f := fs[r.Intn(3)]
+			msg, ctxb := mkmsg(f)
+			emit(mkSide(r, 0, a, r.Intn(8)), ncSide, a, f, ctxb, msg, 0, 0, opts)
+			msg, ctxb = mkmsg(f)
+			emit(ncSide, mkSide(r, 0, rr, r.Intn(8)), big.NewInt(0), f, ctxb, msg, 0, 0, opts)
+		}
+	}
 	// ---- (3a) length sweep: honest requests whose context and message lengths walk through every total 0..330 (ctx) and
 	// every context length 0..255 (ph: the message is the 64-byte prehash): input assembly must not depend on the sizes
 	// (internal buffers, block boundaries of the hash at 111/112, 127/128, 239/240 ...)
